@@ -154,6 +154,9 @@ def main(prop, tier, seed, replay_file):
             "cluster: 3 brokers, 2 bootstrap hosts, topics a{0,1} b{0}, one group; version discovery disabled here",
         ]
         run_client(chk, prop, tier, seed)
+        if prop == "C11":
+            from . import check_calls
+            check_calls.timeouts(chk, tier, seed)
         if prop == "C08":
             # "... consuming resumes within the retry budget after faults cease": the real Consumer over this client and
             # the simulated cluster, with leader moves, broker restarts and error answers (Consumer.tla decides what the
